@@ -170,7 +170,29 @@ pub fn check(c: &Case, obs: &mut Obs) -> Verdict {
         Ok(Err(e)) => return Verdict::fail(format!("well-formed rate folder rejected: {e}\n{:?}", c.folder)),
         Err(p) => return Verdict::fail(format!("rate loader panicked: {} at {}", p.msg, p.loc)),
     };
-    let table = expected_table(&c.folder);
+    let mut table = expected_table(&c.folder);
+    // a (currency, month) given by two or more folder files (or twice in one file): which one
+    // wins is not stated; whichever of the supplied rates the tool uses is taken as expected
+    {
+        let mut candidates: BTreeMap<Key, Vec<Decimal>> = BTreeMap::new();
+        for f in &c.folder {
+            for (code, rate) in &f.rows {
+                if let Ok(r) = rate.parse::<Decimal>() {
+                    candidates.entry((code.clone(), f.year, f.month)).or_default().push(r);
+                }
+            }
+        }
+        for (key, rates) in candidates.iter().filter(|(_, v)| v.len() >= 2) {
+            if let Some(cur) = Currency::from_code(&key.0) {
+                if let Some(got) = cache.get(cur, key.1, key.2).map(|e| e.rate_per_gbp) {
+                    if rates.contains(&got) {
+                        table.insert(key.clone(), got);
+                        obs.class("month_given_twice_in_the_folder");
+                    }
+                }
+            }
+        }
+    }
     // (c) the cache equals the expected table on overridden keys and on neighbours
     for f in &c.folder {
         for (code, _) in &f.rows {
